@@ -15,3 +15,4 @@ ASSUMPTIONS = [
 
 from vt.contracts import iface_config  # noqa: F401,E402
 from vt.contracts import particle_ground  # noqa: F401,E402  (config_loader.DecayConfig/ls_cut_shared_decays: exhaustive over its stated family)
+from vt.contracts import config_ground  # noqa: F401,E402  (ground contracts on the pure helpers of the configuration grammar)
